@@ -105,9 +105,9 @@ def order_trees(tier):
     a2, a3, a22, a23 = ["A", [2]], ["A", [3]], ["A", [2, 2]], ["A", [2, 3]]
     none = ["0"]
     out = []
-    two = [(a2, a3), (a3, a2), (a2, a2), (a22, a23), (a23, a22)]
+    two = [(a2, a3), (a3, a2), (a22, a23)]
     if tier == "thorough":
-        two += [(a3, a3), (a2, a22), (a22, a2)]
+        two += [(a2, a2), (a23, a22), (a3, a3), (a2, a22), (a22, a2)]
     for x, y in two:  # 2 keys: both insertion orders
         out += _dict_orders([("p", x), ("q", y)])
     three = [(a2, a3, a2)] + ([(a3, a2, a2), (a22, a23, a2)] if tier == "thorough" else [])
@@ -174,14 +174,14 @@ def families(tier):
         fam("tree2", [(pq, r) for pq in [(T, T), (T, Q), (T, A), (Q, Q), (U, T), (A, T)] for r in (None, "a")], TREE_LEAF_SHAPES, RS2, T_ALL, trees=trees2)
         fam("k1_tbf_auto", sig([D6], [None, "a"]), S, RS2, T_ALL, tbf="auto")
         # container order: every pair of argument trees (positions are compared ACROSS the two trees)
-        fam("order2", [(pq, None) for pq in [(Q, Q), (QV, QV), (T, Q), (QV, T2), (T, T)]], [], [()], T_BASIC + ["jit.vmap", "grad.jit"], trees=otrees, ints=False)
+        fam("order2", [(pq, None) for pq in [(Q, Q), (QV, QV), (T, Q), (QV, T2)]], [], [()], T_BASIC + ["jit.vmap", "grad.jit"], trees=otrees, ints=False)
         fam("order_ret", [((p,), p) for p in (Q, QV, T)], [], odicts, ["eval_shape", "jit", "make_jaxpr", "vmap", "jit.vmap", "vmap.jit"], trees=otrees, ints=False)
         # f-string axes over static attributes of array parameters, every subset of arguments traced
         fam("fstr2", sig([["*v", "a", "a b", "... a"], FSTR + FSTR_MIXED], [None]) + sig([FSTR[:1] + ["{x1.ndim}", "{len(x1)}"], ["*v", "a"]], [None]),
             S_F, RS2, T_BASIC, ints=False, partial=True)
         fam("fstr2comp", sig([["*v", "a"], FSTR], [None]), S_F4, RS2, T_COMP, ints=False)
         fam("fstr_ret", sig([["*v"], ["a"]], ["{x0.ndim}", "{len(x1)}", "{x0.shape[-1]+1}"]) + sig([["*v", "{x0.ndim}", "{len(x0)}"]], ["{x0.ndim}", "{len(x0)}"]),
-            S_F, ["like0", (1,), (2,)], T_ALL, partial=True)
+            S_F, ["like0", (1,), (2,)], T_ALL, ints=False, partial=True)
         fam("fstr_tree", [((_A("*v"), _P(d, None)), None) for d in FSTR] + [((_A("*v"), _P("?a {x0.ndim}", "T")), None)], S_F4, RS2, T_BASIC,
             trees=[L2, L22, ["T", [L2, L3]], ["D", [["q", L2], ["p", L22]]], ["T", [L22, L32]]], ints=False, partial=True)
         # axes fed by non-array parameters that are never traced
